@@ -282,6 +282,7 @@ template <class E>
 struct Files {
   const Ref& r;
   std::unique_ptr<grf::TmpGr> f[3], t[3];
+  int ok[2][3] = {{-1, -1, -1}, {-1, -1, -1}}; // memo of "FileGraph reads it"
   explicit Files(const Ref& r_) : r(r_) {}
   const std::string& fwd(int ver) {
     if (!f[ver])
